@@ -799,14 +799,14 @@ def _axi_lite_port_address(ctx, rid="E9"):
 
 
 
-def _e10(ctx):
+def _e10(ctx, rid="E10"):
     """The CSR bus has no arbiter: csr_bus.InterconnectShared ORs adr / re / we / dat_w of every master (the SoC's bridge plus
     whatever `csr.add_master` added).  The register a published address denotes is therefore reached only if every master that has no
     access in hand contributes zeros -- or the interconnect masks the line by that master's own strobe."""
     from ..rules_stream import fx_of, shared_bus_idle_zero
     from .. import boolx as B
     WB = "litex/soc/interconnect/wishbone.py"
-    ctx.rule("E10", "OR-combined CSR bus: every CSR master (Wishbone2CSR registered / combinational) drives adr, re, we, dat_w to zero "
+    ctx.rule(rid, "OR-combined CSR bus: every CSR master (Wishbone2CSR registered / combinational) drives adr, re, we, dat_w to zero "
                     "while it has no access in hand -- no driver active in the idle state whatever the inputs are, clocked lines "
                     "cleared on the way back to the idle state -- unless InterconnectShared gates the line by the master's own strobe",
              min_sites=11)
@@ -817,7 +817,7 @@ def _e10(ctx):
         if a.v.startswith("Reduce(") and a.t.count(".") == 1 and a.t.split(".", 1)[1] in ("adr", "re", "we", "dat_w"):
             fields[a.t.split(".", 1)[1]] = a
     ok = set(fields) == {"adr", "re", "we", "dat_w"} and all(a.v.startswith("Reduce('OR'") for a in fields.values())
-    ctx.ob("E10", CSRBUS, "InterconnectShared", "adr, re, we, dat_w are the OR over all masters", ok, "" if ok else f"{sorted(fields)}",
+    ctx.ob(rid, CSRBUS, "InterconnectShared", "adr, re, we, dat_w are the OR over all masters", ok, "" if ok else f"{sorted(fields)}",
            next(iter(fields.values())).line if fields else 0)
     discharged = set()
     for f, a in fields.items():
@@ -840,14 +840,14 @@ def _e10(ctx):
     fx = fx_of(ctx, WB, "Wishbone2CSR")
     for info in fx.fsms.values():
         reg = ("register", True) in info.pyguards
-        shared_bus_idle_zero(ctx, "E10", fx, "Wishbone2CSR", info, ["self.csr.adr", "self.csr.re", "self.csr.we", "self.csr.dat_w"],
+        shared_bus_idle_zero(ctx, rid, fx, "Wishbone2CSR", info, ["self.csr.adr", "self.csr.re", "self.csr.we", "self.csr.dat_w"],
                              tag="registered: " if reg else "comb: ", discharged=discharged)
     # AXILite2CSR reaches the CSR bus through axi_lite_to_simple
     AL = "litex/soc/interconnect/axi/axi_lite.py"
     fxa = fx_of(ctx, AL, func="axi_lite_to_simple")
     ctx.need(len(fxa.fsms) == 1, "axi_lite_to_simple: expected one FSM")
     for info in fxa.fsms.values():
-        shared_bus_idle_zero(ctx, "E10", fxa, "axi_lite_to_simple", info, ["port_adr", "port_re", "port_we", "port_dat_w"],
+        shared_bus_idle_zero(ctx, rid, fxa, "axi_lite_to_simple", info, ["port_adr", "port_re", "port_we", "port_dat_w"],
                              tag="AXILite2CSR: ", discharged={x.replace("self.csr.", "port_") for x in discharged})
 
 
